@@ -516,7 +516,11 @@ def check_full(ctx, batch, tok, maze, do_model=True, cj=None):
     cj = cj or full_json(tok)
     mj = maze_json(maze)
     case = dict(level="full", cfg=cj, maze=strip(mj))
-    toks, e = call(lambda: tok.to_tokens(maze))
+    # both public routes to the same sequence: tokenizer.to_tokens(maze) and maze.as_tokens(tokenizer) (one of them per case: shuffling
+    # tokenizers draw random numbers, so the two cannot be compared call against call)
+    route = "as_tokens" if (len(mj["edges"]) + mj["rows"] + len(str(cj))) % 2 else "to_tokens"
+    toks, e = call((lambda: maze.as_tokens(tok)) if route == "as_tokens" else (lambda: tok.to_tokens(maze)))
+    ctx.count("route=" + route)
     ctx.count("full:" + mj["kind"] + ("/aotp" if cj["prompt"]["aotp"] else "/aop"))
     ctx.count(f"grid={mj['rows']}")
     ores = None
@@ -740,6 +744,15 @@ def six_mazes(ctx, gmin, gmax):
         for cyclic in (False, True):
             m = gen_lattice(ctx, ctx.rng.randrange(gmin, gmax + 1), cyclic)
             out.append(as_kind(ctx, m, kind, walk=(kind == "solved" and ctx.rng.random() < 0.25)))
+    # extremes of the domain: no connection at all (every cell isolated, the adjacency region may be empty), the full lattice (no wall to list),
+    # and a targeted maze whose start is its end
+    r = ctx.rng.random()
+    if r < 0.5:
+        from maze_dataset import LatticeMazeGenerators, TargetedLatticeMaze
+        n = ctx.rng.randrange(gmin, gmax + 1)
+        out[0] = LatticeMazeGenerators.gen_percolation(np.array([n, n]), p=0.0 if r < 0.25 else 1.0)
+        m = out[3]; n = m.connection_list.shape[1]; c0 = np.array([ctx.rng.randrange(n), ctx.rng.randrange(n)])
+        out[3] = TargetedLatticeMaze(connection_list=m.connection_list, start_pos=c0, end_pos=c0.copy())
     if ctx.rng.random() < 0.5:   # start == end: one-cell solution
         from maze_dataset import SolvedMaze
         m = out[-1]; n = m.connection_list.shape[1]
